@@ -1,0 +1,95 @@
+//go:build verif
+
+package verifhook
+
+import (
+	"context"
+	"sync/atomic"
+)
+
+// Enabled reports whether the hooks are compiled in.
+const Enabled = true
+
+// Handler receives every hook call. It is registered by the verification
+// harness; this package is a pure dispatcher and keeps no state of its own.
+type Handler interface {
+	Begin(kind string)
+	End(kind string)
+	Consumer(bus interface{}, name string)
+	Processed(bus interface{}, name string)
+	Point(name string, args ...interface{})
+	Observe(name string, args ...interface{})
+}
+
+type holder struct{ h Handler }
+
+var current atomic.Value // holder
+
+// SetHandler installs h (nil removes the handler).
+func SetHandler(h Handler) { current.Store(holder{h}) }
+
+func get() Handler {
+	v, _ := current.Load().(holder)
+	return v.h
+}
+
+func Begin(kind string) {
+	if h := get(); h != nil {
+		h.Begin(kind)
+	}
+}
+
+func End(kind string) {
+	if h := get(); h != nil {
+		h.End(kind)
+	}
+}
+
+type spawnKey struct{}
+
+type spawnToken struct{ done int32 }
+
+// SpawnCtx counts one unit of work that is about to be handed to a goroutine
+// and returns a context carrying a token for it.
+func SpawnCtx(ctx context.Context) context.Context {
+	if get() == nil {
+		return ctx
+	}
+	Begin("spawn")
+	return context.WithValue(ctx, spawnKey{}, &spawnToken{})
+}
+
+// SpawnDone ends the unit of work carried by ctx, if any, exactly once.
+func SpawnDone(ctx context.Context) {
+	t, _ := ctx.Value(spawnKey{}).(*spawnToken)
+	if t == nil {
+		return
+	}
+	if atomic.CompareAndSwapInt32(&t.done, 0, 1) {
+		End("spawn")
+	}
+}
+
+func Consumer(bus interface{}, name string) {
+	if h := get(); h != nil {
+		h.Consumer(bus, name)
+	}
+}
+
+func Processed(bus interface{}, name string) {
+	if h := get(); h != nil {
+		h.Processed(bus, name)
+	}
+}
+
+func Point(name string, args ...interface{}) {
+	if h := get(); h != nil {
+		h.Point(name, args...)
+	}
+}
+
+func Observe(name string, args ...interface{}) {
+	if h := get(); h != nil {
+		h.Observe(name, args...)
+	}
+}
